@@ -39,7 +39,7 @@ fn setup_proof_and_client(tag: u64) -> (SrpProof, SrpClientChallenge) {
         let client = SrpClientChallenge::new(ns("alice"), ns("password123"), GENERATOR, LARGE_SAFE_PRIME_LITTLE_ENDIAN, bk, SALT0);
         (proof, client)
     });
-    r.unwrap_or_else(|m| mc::util::machinery_error(&format!("C15 setup failed: {m}")))
+    r.unwrap_or_else(|m| std::panic::panic_any(format!("setup: {m}")))
 }
 fn setup_logged_in(tag: u64) -> (SrpServer, SrpClient) {
     let (proof, client) = setup_proof_and_client(tag);
@@ -49,7 +49,7 @@ fn setup_logged_in(tag: u64) -> (SrpServer, SrpClient) {
         let c = client.verify_server_proof(m2).expect("honest login");
         (server, c)
     });
-    r.unwrap_or_else(|m| mc::util::machinery_error(&format!("C15 setup (login) failed: {m}")))
+    r.unwrap_or_else(|m| std::panic::panic_any(format!("setup: {m}")))
 }
 
 fn measured<R>(script: &[u8], f: impl FnOnce() -> R, obs: impl FnOnce(R) -> Vec<u8>) -> Result<(Vec<u8>, usize, Vec<Draw>), String> {
@@ -104,6 +104,15 @@ fn sites() -> Vec<Site> {
     ]
 }
 
+/// Calls the site; a failure while SETTING UP the objects the site needs (e.g. the honest login that
+/// precedes a reconnect) comes back as Err("setup: ...") and is not C15's business.
+fn call_site(site: &Site, script: &[u8]) -> Result<(Vec<u8>, usize, Vec<Draw>), String> {
+    match mc::util::catch(|| (site.call)(script)) {
+        Ok(r) => r,
+        Err(m) => Err(m),
+    }
+}
+
 fn viol(report: &Report, site: &str, class: &str, replay: serde_json::Value, msg: String) {
     report.violation(Violation { signature: format!("C15|{}|{class}", site.split(' ').take(4).collect::<Vec<_>>().join("-")), scenario: "rng-environment".into(), replay: json!({"site": site, "case": replay}), detail: json!({ "message": msg }) });
 }
@@ -120,13 +129,17 @@ pub fn run(tier: Tier, seed: u64) -> i32 {
     for (si, site) in ss.iter().enumerate() {
         let w = site.width;
         // ---- is the site under the harness's control at all? ----
-        let probe1 = (site.call)(&counter_script(1, w));
-        let probe2 = (site.call)(&counter_script(101, w));
+        let probe1 = call_site(site, &counter_script(1, w));
+        let probe2 = call_site(site, &counter_script(101, w));
         evals += 2;
         let (p1, p2) = match (probe1, probe2) {
             (Ok(a), Ok(b)) => (a, b),
             (Err(m), _) | (_, Err(m)) => {
-                viol(&report, site.name, "panic", json!({"script": "counter"}), format!("the drawing call panicked: {m}"));
+                if m.starts_with("setup:") {
+                    report.count("sites_skipped_because_their_setup_failed", 1);
+                } else {
+                    viol(&report, site.name, "panic", json!({"script": "counter"}), format!("the drawing call panicked: {m}"));
+                }
                 continue;
             }
         };
@@ -135,7 +148,7 @@ pub fn run(tier: Tier, seed: u64) -> i32 {
             // the site does not draw through the seam (e.g. another entropy source): not a violation by itself,
             // but freshness must then show in the values: repeated calls (identical setup) must not repeat
             uncontrolled.push(site.name);
-            let p3 = (site.call)(&counter_script(55, w));
+            let p3 = call_site(site, &counter_script(55, w));
             evals += 1;
             let outs = [Some(p1.0.clone()), Some(p2.0.clone()), p3.ok().map(|x| x.0)];
             if outs[0] == outs[1] || outs[1] == outs[2] || outs[0] == outs[2] {
@@ -160,7 +173,7 @@ pub fn run(tier: Tier, seed: u64) -> i32 {
         let mut ok = true;
         for call in 0..4u8 {
             let script = counter_script(call.wrapping_mul(40).wrapping_add(7), w);
-            match (site.call)(&script) {
+            match call_site(site, &script) {
                 Ok((out, used, log)) => {
                     evals += 1;
                     if used == 0 || log.is_empty() {
@@ -182,7 +195,7 @@ pub fn run(tier: Tier, seed: u64) -> i32 {
                 }
             }
             // an unrelated site in between must not disturb anything
-            let _ = (other.call)(&counter_script(200, other.width));
+            let _ = call_site(other, &counter_script(200, other.width));
             evals += 1;
         }
         if !ok {
@@ -190,7 +203,7 @@ pub fn run(tier: Tier, seed: u64) -> i32 {
         }
         // ---- (ii) every draw byte matters, every output byte varies ----
         let zero = vec![0u8; w];
-        let base = match (site.call)(&zero) {
+        let base = match call_site(site, &zero) {
             Ok(x) => x.0,
             Err(m) => {
                 // all-zero private keys are a legitimate draw; a crash here is C01/C19 business for a/b, but a crash elsewhere is a finding
@@ -211,7 +224,7 @@ pub fn run(tier: Tier, seed: u64) -> i32 {
             for v in [0x01u8, 0x80, 0xFF] {
                 let mut sc = zero.clone();
                 sc[j] = v;
-                match (site.call)(&sc) {
+                match call_site(site, &sc) {
                     Ok((out, _, _)) => {
                         evals += 1;
                         if !base.is_empty() {
@@ -251,7 +264,7 @@ pub fn run(tier: Tier, seed: u64) -> i32 {
             }
         }
         for sc in [vec![0xFFu8; w]] {
-            if let Err(m) = (site.call)(&sc) {
+            if let Err(m) = call_site(site, &sc) {
                 if site.direct {
                     viol(&report, site.name, "panic", json!({"script": "all-0xFF"}), m);
                 }
@@ -259,6 +272,27 @@ pub fn run(tier: Tier, seed: u64) -> i32 {
             evals += 1;
         }
         report.count("sites_checked_under_script", 1);
+    }
+
+    // ---- one history through ALL sites with pairwise different RNG answers: no two values may coincide
+    //      (a value copied from another site's buffer, or two values cut from one draw, shows up here) ----
+    {
+        let mut seen: Vec<(Vec<u8>, &str)> = vec![];
+        for round in 0..2u8 {
+            for (i, site) in ss.iter().enumerate() {
+                let script: Vec<u8> = refmodel::ctr_bytes(seed, &format!("c15-all-sites-{round}-{i}"), site.width);
+                if let Ok((out, used, _)) = call_site(site, &script) {
+                    evals += 1;
+                    if used == 0 || out.len() < 8 {
+                        continue; // 32-bit values may legitimately collide with parts of others; uncontrolled sites are judged above
+                    }
+                    if let Some((_, other)) = seen.iter().find(|(o, _)| *o == out || (o.len() > out.len() && o.windows(out.len()).any(|w| w == &out[..])) || (out.len() > o.len() && out.windows(o.len()).any(|w| w == &o[..]))) {
+                        viol(&report, site.name, "value-shared-with-another-site", json!({"other_site": other, "value": hex(&out)}), format!("the value equals (or is contained in) the value produced by '{other}' although the RNG answered differently for the two calls"));
+                    }
+                    seen.push((out, site.name));
+                }
+            }
+        }
     }
 
     // ---- matrix card digits (rejection sampling: scripted prefix then deterministic tail) ----
@@ -292,6 +326,13 @@ pub fn run(tier: Tier, seed: u64) -> i32 {
                     prev.push(card.data().to_vec());
                 }
                 Err(m) => viol(&report, "matrix card digits", "panic", json!({"w": w, "h": h, "d": d}), m),
+            }
+        }
+        // no digit position is a copy of its neighbour under every script
+        if cells >= 2 {
+            let copies: Vec<usize> = (1..cells).filter(|&i| prev.iter().all(|c| c.len() == cells && c[i] == c[i - 1])).collect();
+            if !copies.is_empty() && prev.len() >= 8 {
+                viol(&report, "matrix card digits", "cell-copies-neighbour", json!({"w": w, "h": h, "d": d, "positions": &copies[..copies.len().min(10)]}), format!("{} digit position(s) always equal their left neighbour", copies.len()));
             }
         }
         let stuck: Vec<usize> = cell_values.iter().enumerate().filter(|(_, s)| s.len() < 2).map(|(i, _)| i).collect();
